@@ -93,6 +93,16 @@ func (se *SpecEnv) eval(e SExpr, hint types.Type) Val {
 			return f.zero(hint)
 		}
 	case SIdent:
+		if c := se.untypedConst(e.Name); c != nil {
+			t := hint
+			if t == nil || !isInteger(t) || t == untypedInt {
+				t = types.Typ[types.Int]
+			}
+			bi, _ := new(big.Int).SetString(c.Val().ExactString(), 10)
+			if bi != nil {
+				return Val{T: t, L: []string{bvLit(bi, intWidth(t))}}
+			}
+		}
 		return se.ident(e.Name)
 	case SUnary:
 		switch e.Op {
@@ -108,6 +118,9 @@ func (se *SpecEnv) eval(e SExpr, hint types.Type) Val {
 			x := se.eval(e.X, hint)
 			return Val{T: x.T, L: []string{"(bvnot " + x.L[0] + ")"}}
 		}
+	case SAddrOf:
+		a, t := se.addrOf(e.X)
+		return Val{T: types.NewPointer(t), L: []string{a.Ref, a.Idx, a.Sub}}
 	case SDeref:
 		p := se.eval(e.X, nil)
 		t := derefType(p.T)
@@ -172,7 +185,7 @@ func (se *SpecEnv) eval(e SExpr, hint types.Type) Val {
 		if e.Hi != nil {
 			hi = se.idx(e.Hi)
 		}
-		a := f.elemAddr(Addr{x.L[0], x.L[1], x.L[2]}, sl.Elem(), lo)
+		a := f.elemAddr(Addr{Ref: x.L[0], Idx: x.L[1], Sub: x.L[2]}, sl.Elem(), lo)
 		return Val{T: x.T, L: []string{a.Ref, a.Idx, a.Sub, "(bvsub " + hi + " " + lo + ")", "(bvsub " + x.L[4] + " " + lo + ")"}}
 	case SQuant:
 		return se.quant(e)
@@ -191,27 +204,48 @@ func (se *SpecEnv) idx(e SExpr) string {
 	return extend(v.L[0], intWidth(v.T), 64, isSigned(v.T))
 }
 
-func isLit(e SExpr) bool {
+func (se *SpecEnv) isLit(e SExpr) bool {
 	switch x := e.(type) {
 	case SLit:
 		return x.Kind == "int" || x.Kind == "nil"
+	case SIdent:
+		return se.untypedConst(x.Name) != nil
 	case SUnary:
-		return isLit(x.X)
+		return se.isLit(x.X)
 	case SBinary:
-		return isLit(x.X) && isLit(x.Y)
+		return se.isLit(x.X) && se.isLit(x.Y)
 	}
 	return false
+}
+
+// untypedConst returns the package-level untyped integer constant named
+// name, if the name is not shadowed by a variable.
+func (se *SpecEnv) untypedConst(name string) *types.Const {
+	if _, ok := se.vars[name]; ok {
+		return nil
+	}
+	if se.pkg == nil {
+		return nil
+	}
+	c, ok := se.pkg.Scope().Lookup(name).(*types.Const)
+	if !ok {
+		return nil
+	}
+	if b, ok := c.Type().(*types.Basic); ok && b.Kind() == types.UntypedInt {
+		return c
+	}
+	return nil
 }
 
 // evalPair evaluates two operands that must have the same type, typing
 // literals from the other side.
 func (se *SpecEnv) evalPair(a, b SExpr, hint types.Type) (Val, Val) {
 	switch {
-	case isLit(a) && !isLit(b):
+	case se.isLit(a) && !se.isLit(b):
 		y := se.eval(b, hint)
 		x := se.eval(a, y.T)
 		return x, y
-	case isLit(b) && !isLit(a):
+	case se.isLit(b) && !se.isLit(a):
 		x := se.eval(a, hint)
 		y := se.eval(b, x.T)
 		return x, y
@@ -383,7 +417,7 @@ func (se *SpecEnv) ident(name string) Val {
 				g := se.f.eng.globalOf(o)
 				if g != nil {
 					ref := se.f.globalRef(g)
-					return se.load(o.Type(), Addr{ref, bv64(0), bv64(0)})
+					return se.load(o.Type(), Addr{Ref: ref, Idx: bv64(0), Sub: bv64(0)})
 				}
 			}
 		}
@@ -415,7 +449,7 @@ func (se *SpecEnv) selector(e SSelector) Val {
 					}
 					if v, ok := obj.(*types.Var); ok {
 						if g := f.eng.globalOf(v); g != nil {
-							return se.load(v.Type(), Addr{f.globalRef(g), bv64(0), bv64(0)})
+							return se.load(v.Type(), Addr{Ref: f.globalRef(g), Idx: bv64(0), Sub: bv64(0)})
 						}
 					}
 				}
@@ -487,7 +521,7 @@ func (se *SpecEnv) index(x Val, ie SExpr) Val {
 	switch u := x.T.Underlying().(type) {
 	case *types.Slice:
 		i := se.idx(ie)
-		a := f.elemAddr(Addr{x.L[0], x.L[1], x.L[2]}, u.Elem(), i)
+		a := f.elemAddr(Addr{Ref: x.L[0], Idx: x.L[1], Sub: x.L[2]}, u.Elem(), i)
 		return se.load(u.Elem(), a)
 	case *types.Array:
 		// array value: constant or symbolic index over flattened leaves
@@ -508,9 +542,9 @@ func (se *SpecEnv) index(x Val, ie SExpr) Val {
 			i := se.idx(ie)
 			var a Addr
 			if f.l.cells(arr.Elem()) == 1 {
-				a = Addr{x.L[0], x.L[1], bvadd(x.L[2], i)}
+				a = Addr{Ref: x.L[0], Idx: x.L[1], Sub: bvadd(x.L[2], i)}
 			} else {
-				a = Addr{x.L[0], bvadd(x.L[1], i), x.L[2]}
+				a = Addr{Ref: x.L[0], Idx: bvadd(x.L[1], i), Sub: x.L[2]}
 			}
 			return se.load(arr.Elem(), a)
 		}
@@ -775,6 +809,59 @@ func (se *SpecEnv) call(e SCall, hint types.Type) Val {
 		k := se.eval(e.Args[1], mt.Key())
 		h, _ := f.mapGet(se.state(), mt, m.L[0], k.L[0])
 		return boolVal(and(not(eq(m.L[0], "0")), h))
+	case "first", "second", "third": // projections of a tuple value
+		x := se.eval(e.Args[0], nil)
+		tup, ok := x.T.(*types.Tuple)
+		if !ok {
+			sfail("%s() on non-tuple %s", e.Fun, x.T)
+		}
+		k := map[string]int{"first": 0, "second": 1, "third": 2}[e.Fun]
+		off := 0
+		for i := 0; i < k; i++ {
+			off += f.l.cells(tup.At(i).Type())
+		}
+		n := f.l.cells(tup.At(k).Type())
+		return Val{T: tup.At(k).Type(), L: x.L[off : off+n]}
+	case "icall": // icall("pkg.Iface.Method", recv, args...): pure interface method
+		lit, ok := e.Args[0].(SLit)
+		if !ok || lit.Kind != "string" {
+			sfail("icall needs the method key as a string literal")
+		}
+		con := f.eng.ifaceContract(lit.Val)
+		if con == nil || !con.Pure {
+			sfail("no pure interface contract %s", lit.Val)
+		}
+		var args []Val
+		for _, a := range e.Args[1:] {
+			args = append(args, se.eval(a, nil))
+		}
+		it, ok := args[0].T.Underlying().(*types.Interface)
+		if !ok {
+			sfail("icall receiver is not an interface")
+		}
+		var rt types.Type
+		mname := lit.Val[strings.LastIndex(lit.Val, ".")+1:]
+		for i := 0; i < it.NumMethods(); i++ {
+			if it.Method(i).Name() == mname {
+				sig := it.Method(i).Type().(*types.Signature)
+				rt = sig.Results()
+				if sig.Results().Len() == 1 {
+					rt = sig.Results().At(0).Type()
+				}
+			}
+		}
+		if rt == nil {
+			sfail("interface has no method %s", mname)
+		}
+		f.c.trusted["iface contract "+lit.Val] = true
+		return f.pureResult(se.state(), lit.Val, args, rt, con.Reads)
+	case "asbytes": // the []byte held in an interface value
+		x := se.eval(e.Args[0], nil)
+		bt := types.NewSlice(types.Typ[types.Uint8])
+		return se.load(bt, Addr{Ref: x.L[1], Idx: x.L[2], Sub: x.L[3]})
+	case "isbytes":
+		x := se.eval(e.Args[0], nil)
+		return boolVal(eq(x.L[0], f.c.typeTag(types.NewSlice(types.Typ[types.Uint8]))))
 	case "min", "max":
 		x, y := se.evalPair(e.Args[0], e.Args[1], hint)
 		if !isInteger(x.T) || intWidth(x.T) != intWidth(y.T) {
@@ -817,8 +904,11 @@ func (se *SpecEnv) call(e SCall, hint types.Type) Val {
 	case "isnil":
 		x := se.eval(e.Args[0], nil)
 		return boolVal(eq(x.L[0], "0"))
-	case "ref": // object identity of a pointer/slice/map (Int)
+	case "ref": // object identity of a pointer/slice/map (Int); for an interface, of its payload
 		x := se.eval(e.Args[0], nil)
+		if _, isIface := x.T.Underlying().(*types.Interface); isIface {
+			return Val{T: refType, L: []string{x.L[1]}}
+		}
 		return Val{T: refType, L: []string{x.L[0]}}
 	case "same": // same(a, b): identical leaves (pointer/slice identity)
 		x := se.eval(e.Args[0], nil)
@@ -972,15 +1062,15 @@ func (se *SpecEnv) addrOf(e SExpr) (Addr, types.Type) {
 		switch u := x.T.Underlying().(type) {
 		case *types.Slice:
 			i := se.idx(e.I)
-			return f.elemAddr(Addr{x.L[0], x.L[1], x.L[2]}, u.Elem(), i), u.Elem()
+			return f.elemAddr(Addr{Ref: x.L[0], Idx: x.L[1], Sub: x.L[2]}, u.Elem(), i), u.Elem()
 		}
 		ba, bt := se.addrOf(e.X)
 		if arr, ok := bt.Underlying().(*types.Array); ok {
 			i := se.idx(e.I)
 			if f.l.cells(arr.Elem()) == 1 {
-				return Addr{ba.Ref, ba.Idx, bvadd(ba.Sub, i)}, arr.Elem()
+				return Addr{Ref: ba.Ref, Idx: ba.Idx, Sub: bvadd(ba.Sub, i)}, arr.Elem()
 			}
-			return Addr{ba.Ref, bvadd(ba.Idx, i), ba.Sub}, arr.Elem()
+			return Addr{Ref: ba.Ref, Idx: bvadd(ba.Idx, i), Sub: ba.Sub}, arr.Elem()
 		}
 		sfail("address of index on %s", x.T)
 	case SDeref:
@@ -991,7 +1081,7 @@ func (se *SpecEnv) addrOf(e SExpr) (Addr, types.Type) {
 		if se.pkg != nil {
 			if obj, ok := se.pkg.Scope().Lookup(e.Name).(*types.Var); ok {
 				if g := f.eng.globalOf(obj); g != nil {
-					return Addr{f.globalRef(g), bv64(0), bv64(0)}, obj.Type()
+					return Addr{Ref: f.globalRef(g), Idx: bv64(0), Sub: bv64(0)}, obj.Type()
 				}
 			}
 		}
@@ -1070,7 +1160,11 @@ func (se *SpecEnv) place(e SExpr) (placeAddr, types.Type, bool) {
 		if !ok {
 			sfail("no field %s in %s", e.Name, bt)
 		}
-		return placeAddr{base.plusSub(fi.Off), base.nonnil}, fi.T, true
+		na := base.plusSub(fi.Off)
+		if _, named := bt.(*types.Named); named {
+			na.Via = append(append([]viaTag(nil), na.Via...), viaTag{bt, fi.Off})
+		}
+		return placeAddr{na, base.nonnil}, fi.T, true
 	case SIndex:
 		if id, ok := e.I.(SIdent); ok && id.Name == "*" {
 			return placeAddr{}, nil, false
@@ -1084,9 +1178,9 @@ func (se *SpecEnv) place(e SExpr) (placeAddr, types.Type, bool) {
 			if arr, ok := pt.Underlying().(*types.Array); ok {
 				i := se.idx(e.I)
 				if f.l.cells(arr.Elem()) == 1 {
-					return placeAddr{Addr{pa.Ref, pa.Idx, bvadd(pa.Sub, i)}, ""}, arr.Elem(), true
+					return placeAddr{Addr{Ref: pa.Ref, Idx: pa.Idx, Sub: bvadd(pa.Sub, i)}, ""}, arr.Elem(), true
 				}
-				return placeAddr{Addr{pa.Ref, bvadd(pa.Idx, i), pa.Sub}, ""}, arr.Elem(), true
+				return placeAddr{Addr{Ref: pa.Ref, Idx: bvadd(pa.Idx, i), Sub: pa.Sub}, ""}, arr.Elem(), true
 			}
 			xv = se.loadPlace(pt, pa)
 		} else {
@@ -1095,14 +1189,14 @@ func (se *SpecEnv) place(e SExpr) (placeAddr, types.Type, bool) {
 		switch u := xv.T.Underlying().(type) {
 		case *types.Slice:
 			i := se.idx(e.I)
-			return placeAddr{f.elemAddr(Addr{xv.L[0], xv.L[1], xv.L[2]}, u.Elem(), i), ""}, u.Elem(), true
+			return placeAddr{f.elemAddr(Addr{Ref: xv.L[0], Idx: xv.L[1], Sub: xv.L[2]}, u.Elem(), i), ""}, u.Elem(), true
 		case *types.Pointer:
 			if arr, ok := u.Elem().Underlying().(*types.Array); ok {
 				i := se.idx(e.I)
 				if f.l.cells(arr.Elem()) == 1 {
-					return placeAddr{Addr{xv.L[0], xv.L[1], bvadd(xv.L[2], i)}, ""}, arr.Elem(), true
+					return placeAddr{Addr{Ref: xv.L[0], Idx: xv.L[1], Sub: bvadd(xv.L[2], i)}, ""}, arr.Elem(), true
 				}
-				return placeAddr{Addr{xv.L[0], bvadd(xv.L[1], i), xv.L[2]}, ""}, arr.Elem(), true
+				return placeAddr{Addr{Ref: xv.L[0], Idx: bvadd(xv.L[1], i), Sub: xv.L[2]}, ""}, arr.Elem(), true
 			}
 		}
 		return placeAddr{}, nil, false
